@@ -21,7 +21,7 @@ REQUIRED_MONITORS = ["closed-form:outputs-compared", "closed-form:input-grads-co
                      "apply:bit-compared", "gradcheck:run"]
 REQUIRED_REACH = {"functional.py": ["residual_split", "residual_add", "residual_apply"]}
 MIN_NONTRIVIAL = {"quick": 800, "thorough": 20000}
-BRANCHES = ["linear", "tanh", "gelu_linear", "u_linear", "u_gelu", "sin_scale", "u_silu_linear"]
+BRANCHES = ["linear", "tanh", "gelu_linear", "u_linear", "u_gelu", "sin_scale", "u_silu_linear", "constant", "detached"]
 
 
 def gen_cases(tier: str, seed: int) -> List[Dict[str, Any]]:
@@ -51,6 +51,11 @@ def make_branch(kind: str, d: int, gen, torch, U):
     import torch.nn.functional as F
 
     W = torch.randn(d, d, generator=gen, dtype=torch.float64) / math.sqrt(d)
+    if kind == "constant":
+        c = torch.randn(d, generator=gen, dtype=torch.float64).requires_grad_(True)
+        return lambda t: c.expand(t.shape) * 1.0  # ignores its input: only the skip path carries gradient to x
+    if kind == "detached":
+        return lambda t: torch.tanh(t.detach() @ W.T)
     if kind == "linear":
         return lambda t: t @ W.T
     if kind == "tanh":
@@ -88,7 +93,7 @@ def run_case(case: Dict[str, Any], ctx) -> None:
     def explicit(x, record):
         def layer(i, t, inner=None):
             r, s = U.residual_split(t, taus[i])
-            if record:
+            if record and r.requires_grad:
                 r.register_hook(lambda g, i=i: hooks.append(("in", i, g.clone())))
             b = fs[i](r)
             if inner is not None:
@@ -140,6 +145,20 @@ def run_case(case: Dict[str, Any], ctx) -> None:
         return build(0)(x)
 
     key = "C06:" + ("nested" if nested else "sequential")
+    if case["seed"] % 2 == 0:
+        # history: the same taus used first on lower-precision tensors in this process (results must not depend on it)
+        try:
+            for lp in (torch.bfloat16, torch.float32):
+                xl = x0.to(lp).requires_grad_(True)
+                t_ = xl
+                for tau in taus:
+                    r_, s_ = U.residual_split(t_, tau)
+                    t_ = U.residual_add(torch.tanh(r_), s_, tau)
+                t_.sum().backward()
+            ctx.count("history:primed-in-lower-precision")
+        except Exception as e:
+            ctx.violation(key + ":raises:" + exc_key(e), repr(e), case=case)
+            return
     try:
         xa = x0.clone().requires_grad_(True)
         with ScaleSpy() as spy:
@@ -198,7 +217,7 @@ def run_case(case: Dict[str, Any], ctx) -> None:
                 rel = (g - sums[i]).abs().max().item() / max(sums[i].abs().max().item(), 1e-300)
                 ctx.violation(key + ":gradient-attenuated-inside-branch", f"layer {i}: branch-output gradient differs from upstream gradient (rel {rel:.2e}, tau={taus[i]})",
                               case=case)
-    if case["gradcheck"] and all(l["branch"] in ("linear", "tanh", "gelu_linear", "sin_scale") for l in layers):
+    if case["gradcheck"] and all(l["branch"] in ("linear", "tanh", "gelu_linear", "sin_scale", "constant") for l in layers):
         ctx.count("gradcheck:run")
         xg = x0.clone().requires_grad_(True)
         try:
